@@ -31,7 +31,7 @@ BOUND = {
     "thorough": "as quick but: all 27/9/6 assignments of {spy,conj|rto,mh} kinds; num_sampling_steps: full "
                 "{1,2,3}^blocks product (3-block cells with MH: the 3 all-equal patterns + the 6 permutations of "
                 "(1,2,3)); depth<=3 for cells without MH and for cells with exactly one MH block and all-equal steps, "
-                "depth<=2 otherwise; complete decision trees up to 8 decisions; legacy depth<=3 (<=2 with >1 MH block)",
+                "depth<=2 otherwise; complete decision trees up to 8 decisions (6 in depth-3 cells); legacy depth<=3 (<=2 with >1 MH block)",
 }
 ASSUMPTIONS = [
     "reference joint log-densities are textbook Gamma / Gaussian formulas written in the harness (dense numpy)",
@@ -42,6 +42,10 @@ ASSUMPTIONS = [
     "and is not re-enumerated",
     "decision trees larger than the stated size are explored deviation-bounded (<=1 rejection from all-accept, "
     "all-reject, two alternating paths), not completely",
+    "cuqi.sampler.Gibbs has no num_sampling_steps: one transition per visit; its block samplers are re-created from "
+    "the conditional at every visit (factory called with the target) and advanced with step(x)",
+    "when no initial point is given (joint hier2) the reference starts from the values the samplers announce after "
+    "construction (class-specific defaults: ones, zeros for LinearRTO); given initial points are compared strictly",
     "legacy Gibbs: a call that raises (second warm-up, continuing after a warm-up-only call) is a refusal and "
     "ends the history",
 ]
@@ -668,11 +672,12 @@ def cells(tier, seed):
                     depth, full = 2, 4
                 else:
                     depth = 3 if (nmh == 1 and len(set(ns)) == 1) else 2
-                    full = 8
+                    full = 8 if depth == 2 else 6
                 yield {"iface": "hybrid", "model": mname, "assign": assign, "nsteps": ns, "depth": depth,
                        "full_tree": full, "cat": k}
             yield {"iface": "legacy", "model": mname, "assign": assign, "nsteps": None,
-                   "depth": 2 if (quick or nmh > 1) else 3, "full_tree": 4 if quick else 8, "cat": k}
+                   "depth": 2 if (quick or nmh > 1) else 3,
+                   "full_tree": 4 if quick else (8 if nmh > 1 else 6), "cat": k}
 
 
 # ========================================================================================
